@@ -5,6 +5,7 @@
 
 #![allow(dead_code, clippy::too_many_arguments)]
 
+mod c03;
 mod c05;
 mod c09;
 mod c11;
@@ -28,6 +29,7 @@ fn main() {
     util::install_panic_monitor();
     util::install_stall_watchdog(&cfg);
     match cfg.check.as_str() {
+        "c03" => c03::run(&cfg),
         "c05" => c05::run(&cfg),
         "c09" => c09::run(&cfg),
         "c11" => c11::run(&cfg),
